@@ -33,11 +33,17 @@ Proof.
   - reflexivity.
 Qed.
 
+Lemma dbin_id cls br o : (cls = 0 /\ (br = 0 \/ br = 2) \/ cls = 1 /\ (br = 0 \/ br = 1 \/ br = 2))%Z -> dbin cls br o = o.
+Proof. intros [[-> [-> | ->]] | [-> [-> | [-> | ->]]]]; destruct o; reflexivity. Qed.
+Lemma dcmp_id cls br o : (cls = 0 /\ (br = 0 \/ br = 2) \/ cls = 1 /\ (br = 0 \/ br = 1 \/ br = 2))%Z -> dcmp cls br o = o.
+Proof. intros [[-> [-> | ->]] | [-> [-> | [-> | ->]]]]; destruct o; reflexivity. Qed.
+
 (** every pipeline expression, of any depth: the implementation computes its mathematical meaning *)
 Theorem impl_is_den :
   (forall e s, impl_p' e s = den_p' e s) /\ (forall e x s, impl_c' e x s = den_c' e x s).
 Proof.
   apply pc_mutind; intros; cbn [impl_p impl_c den_p den_c]; unfold compose_applies_inner_first;
+    rewrite ?dbin_id, ?dcmp_id by (clear; tauto);
     repeat match goal with H : forall _, _ = _ |- _ => rewrite H end;
     repeat match goal with H : forall _ _, _ = _ |- _ => rewrite H end; try reflexivity.
   - unfold mapc. apply map_ext. intro. apply rbin_impl_ok.
